@@ -68,6 +68,10 @@ type c15Scen struct {
 	// StatsPoll: a goroutine reads the global and per-client statistics continuously (an exporter / admin API polling);
 	// every single read must return within the usual bound
 	StatsPoll bool `json:"stats_poll,omitempty"`
+	// StalledInflight (0 none, 4/5 = protocol version): a persistent subscriber gets more QoS 1 data in flight than the
+	// transport buffers, never reads, is killed; it resumes the session, reads only the CONNACK while the broker is
+	// retransmitting into the full pipe, is killed again; a third CONNECT with the client id must be answered
+	StalledInflight int `json:"stalled_inflight_v,omitempty"`
 }
 
 // c15Pipelined counts DISCONNECTs with packets behind them (label only).
@@ -81,7 +85,8 @@ func genC15(t *rapid.T) c15Scen {
 		StopAt: rapid.SampledFrom([]int{30, 60, 100, 100}).Draw(t, "stopat"), MaxProcs: rapid.SampledFrom([]int{2, 4, 16}).Draw(t, "procs"),
 		Stalled:       rapid.SampledFrom([]int{0, 0, 0, 4, 5}).Draw(t, "stalled"),
 		AcceptDelayUs: rapid.SampledFrom([]int{0, 0, 200, 2000}).Draw(t, "accept_delay"), LateDials: rapid.SampledFrom([]int{0, 3, 8}).Draw(t, "late_dials"),
-		TightQueue: rapid.SampledFrom([]int{0, 0, 3, 4}).Draw(t, "tight_queue"), Overlap: rapid.Bool().Draw(t, "overlap"), StatsPoll: rapid.Bool().Draw(t, "stats_poll")}
+		TightQueue: rapid.SampledFrom([]int{0, 0, 3, 4}).Draw(t, "tight_queue"), Overlap: rapid.Bool().Draw(t, "overlap"), StatsPoll: rapid.Bool().Draw(t, "stats_poll"),
+		StalledInflight: rapid.SampledFrom([]int{0, 0, 4, 5}).Draw(t, "stalled_inflight")}
 	n := rapid.IntRange(4, 12).Draw(t, "nclients")
 	for i := 0; i < n; i++ {
 		cl := c15Client{ID: rapid.IntRange(0, 4).Draw(t, "id"), V: rapid.SampledFrom([]int{4, 5}).Draw(t, "v"), Clean: rapid.Bool().Draw(t, "clean"),
@@ -406,6 +411,81 @@ func runC15(s c15Scen, c *ev.Case) *ev.Violation {
 			}
 		}()
 	}
+	stalledInflightDone := make(chan struct{})
+	if s.StalledInflight == 0 {
+		close(stalledInflightDone)
+	} else {
+		c.Label("stalled_reader_with_inflight_resumed_and_killed")
+		wg.Add(1)
+		go func() {
+			defer wg.Done()
+			defer close(stalledInflightDone)
+			v := ver(s.StalledInflight)
+			name, lvl := mw.ProtoFor(v)
+			dial := func(clean bool) (net.Conn, *bufio.Reader, bool) {
+				conn, err := b.DialConn()
+				if err != nil {
+					return nil, nil, false
+				}
+				cp := &mw.Packet{Type: mw.CONNECT, ProtoName: name, ProtoLevel: lvl, ClientID: "stalledq", CleanStart: clean}
+				if s.StalledInflight == 5 {
+					cp.Props = &mw.Props{SessionExpiry: u32p(30)}
+				}
+				raw, _ := mw.Encode(cp, v)
+				_ = conn.SetWriteDeadline(time.Now().Add(c15Wait))
+				if _, err := conn.Write(raw); err != nil {
+					conn.Close()
+					return nil, nil, false
+				}
+				br := bufio.NewReader(conn)
+				_ = conn.SetReadDeadline(time.Now().Add(c15Wait))
+				p, err := mw.ReadPacket(br, v, mw.ToClient)
+				if err != nil || p.Type != mw.CONNACK {
+					conn.Close()
+					return nil, nil, false
+				}
+				return conn, br, true
+			}
+			// v3: Clean Session 0 from the start makes the session persistent
+			a, abr, ok := dial(s.StalledInflight == 5)
+			if !ok {
+				return
+			}
+			raw, _ := mw.Encode(&mw.Packet{Type: mw.SUBSCRIBE, PacketID: 1, Subs: []mw.SubReq{{Filter: "floodq", QoS: 1}}}, v)
+			if _, err := a.Write(raw); err != nil {
+				a.Close()
+				return
+			}
+			_ = a.SetReadDeadline(time.Now().Add(c15Wait))
+			if p, err := mw.ReadPacket(abr, v, mw.ToClient); err != nil || p.Type != mw.SUBACK {
+				a.Close()
+				return
+			}
+			big := make([]byte, 200*1024)
+			for k := 0; k < 6; k++ {
+				b.Srv.Publisher().Publish(&gmqtt.Message{Topic: "floodq", QoS: 1, Payload: big})
+			}
+			time.Sleep(30 * time.Millisecond)
+			a.Close() // killed without having read or acknowledged anything
+			time.Sleep(5 * time.Millisecond)
+			bconn, _, ok := dial(false) // resumes: the broker retransmits the in-flight messages into a pipe nobody reads
+			if !ok {
+				return
+			}
+			time.Sleep(300 * time.Millisecond)
+			bconn.Close() // killed again
+			c3, err := b.DialConn()
+			if err != nil {
+				return
+			}
+			cl3 := fixture.NewClient(c3, "stalledq", v)
+			track(cl3)
+			cp3 := &mw.Packet{Type: mw.CONNECT, ProtoName: name, ProtoLevel: lvl, ClientID: "stalledq", CleanStart: true}
+			if cl3.Send(cp3) == nil {
+				answered(cl3, "CONNECT after a resumed, non-reading connection with in-flight messages was killed", func(p *mw.Packet) bool { return p.Type == mw.CONNACK })
+			}
+		}()
+	}
 	if s.StatsPoll {
 		c.Label("statistics_polled")
 		wg.Add(1)
@@ -490,6 +570,10 @@ func runC15(s c15Scen, c *ev.Case) *ev.Violation {
 	select {
 	case <-stalledDone:
 	case <-time.After(2*c15Wait + 5*time.Second):
+	}
+	select {
+	case <-stalledInflightDone:
+	case <-time.After(3*c15Wait + 5*time.Second):
 	}
 	stopping.Store(true)
 	stopErr := make(chan error, 1)
